@@ -62,6 +62,11 @@ func (p *prefixedReadSeekCloser) Read(b []byte) (int, error) {
 	if prefBytes > 0 {
 		k, _ := p.prefix.Read(b[:prefBytes]) // io.EOF can't happen because of prefBytes and bytes.Reader can't have other errors.
 		n = k
+		if prefBytes == len(b) {
+			// no room left for the rest; asking it with an empty buffer may
+			// report EOF while the prefix is not drained yet
+			return n, nil
+		}
 	}
 
 	k, err := p.rest.Read(b[prefBytes:])
